@@ -8,8 +8,8 @@ mkdir -p /tmp/regr
 for k in $(seq 0 $((N-1))); do
   D=/tmp/regr/c$k
   rm -rf $D; mkdir -p $D
-  rsync -a --exclude .git /verif/ $D/verif/
-  rsync -a --exclude target /repo/ $D/repo/
+  rsync -a --exclude .git --exclude build/tmp /verif/ $D/verif/ || true
+  rsync -a --exclude target /repo/ $D/repo/ || true
   git -C $D/repo checkout -q -- . 2>/dev/null || true
   grep -rl '"/repo"' $D/verif/checks $D/verif/tools $D/verif/harness/Cargo.toml | xargs sed -i "s#\"/repo\"#\"$D/repo\"#g"
   sed -i "s#\"/repo/src#\"$D/repo/src#g" $D/verif/checks/c07.py
